@@ -1,7 +1,7 @@
 CONSTANTS
   D = 20
   Copies = 3
-  Pens = {210000, 0}
+  NPens = 2
   Margin = 50
   Drop = {"CSAT_GE"}
 SPECIFICATION Spec
